@@ -75,7 +75,10 @@ package resourcepack
 //@ func (*modernHandler).QueueResourcePack
 //@   props C27
 //@   at-call Put as put: assert held(m.rwMutex) == wlocked && arg1 == info.ID && arg2 == info
+//@   at-call Count as cnt: assert [counted-per-id] called(put) && arg1 == info.ID && held(m.rwMutex) == wlocked
 //@   at-call tickResourcePackQueue as tick: assert [prompt-without-lock] held(m.rwMutex) == none && called(put)
+//@   at-call tickResourcePackQueue as tick2: assert [prompted-iff-first-outstanding-pack-of-its-id] called(cnt) && res(cnt) == 1
+//@   ensures [first-pack-of-an-id-is-prompted-at-once] called(cnt) && (res(cnt) == 1 ==> called(tick))
 //@ func (*modernHandler).tickResourcePackQueue
 //@   props C27
 //@   at-call Get as get: assert held(m.rwMutex) != none && arg1 == id
